@@ -539,6 +539,14 @@ func (f *followingQuery) Select(t iterator) NodeNavigator {
 				}
 			} else {
 				var q *descendantQuery // descendant query
+				if node.NodeType() == AttributeNode && node.MoveToParent() {
+					// An attribute comes before the children of its element in
+					// document order: they follow it as well.
+					q = &descendantQuery{
+						Input:     &contextQuery{},
+						Predicate: f.Predicate,
+					}
+				}
 				f.iterator = func() NodeNavigator {
 					for {
 						if q == nil {
